@@ -1,6 +1,7 @@
 package kvh
 
 import (
+	"fmt"
 	"github.com/XiXi-2024/xixi-kv/datafile"
 	"pgregory.net/rapid"
 	"sort"
@@ -235,7 +236,19 @@ func GenOp(t *rapid.T, r *Runner, pool *KeyPool, p *GenProfile) Op {
 		return Op{K: "tear", N: 8 + U(t, 400, "tearlen"), VSeed: r.NextSeed()}
 	case "backup":
 		o := GenOpt(t, "backupreader", p.OptProfile)
-		return Op{K: "backup", Opt: &o, Reuse: Pct(t, 35, "reusebackupdir")}
+		op := Op{K: "backup", Opt: &o, Reuse: Pct(t, 35, "reusebackupdir"), PrefixDst: Pct(t, 12, "prefixdst")}
+		if !op.PrefixDst && Pct(t, 25, "refreshidiom") {
+			// "refresh a forked copy": backup; the copy is opened and written into (the harness does that with every
+			// backup it keeps); the source appends records of exactly the same size; the copy is written into once more
+			// (it is re-examined before every backup) and then refreshed by a backup into the same directory. Source
+			// and copy now hold equally long, equally named files with different contents, the copy's being the newer.
+			op.Opt, op.Reuse = nil, false
+			for i := 1; i <= 2; i++ {
+				r.Queued = append(r.Queued, Op{K: "put", Key: []byte(fmt.Sprintf("~written-into-the-sourc%d", i)), VLen: 13, VSeed: r.NextSeed(), Twin: i})
+			}
+			r.Queued = append(r.Queued, Op{K: "backup", Reuse: true})
+		}
+		return op
 	case "bigput":
 		key := pool.Draw(t, "key")
 		return Op{K: "put", Key: key, VLen: BlockSize + U(t, 2*BlockSize, "biglen"), VSeed: r.NextSeed()}
